@@ -656,6 +656,10 @@ class LMDBStorage(BaseStorage):
         await self.validate_event(event, Config)
 
         if not event.is_ephemeral:
+            with self.db.begin(buffers=True) as txn:
+                if get_event_data(txn, event.id_bytes):
+                    # already stored: don't write or announce it again
+                    return event, False
             self.writer_queue.put(("add", [event]))
         await self.post_save(event)
         return event, True
